@@ -103,15 +103,26 @@ INPUT = {"in": 1, "items": [7], "pair": [1, 2]}
 def workers_for(i, o):
     return {"f%d" % i: {"*": to_outcomes(o)}}
 
+RUNAWAY_STEPS = 3000     # no case needs more than a few hundred steps; a change that retries for ever must not hang the check
+
 def _batch(args):
     tier, lo, hi = args
-    from harness.world import World, exec_arn, EPOCH
     cs = cases(tier)[lo:hi]
-    sc = {"name": "c07-batch", "machines": {}, "starts": [], "record_sites": False, "horizon": 1e9,
-          "workers": {"g": {"*": [["err", "E1", "gfail"], ["ok", "g-ok"]]}}}
+    res = []
+    pos = 0
+    while pos < len(cs):
+        part, done = _run_world(cs[pos:], pos)
+        res.extend(part)
+        pos += done
+    return res
+
+def _run_world(cs, base):
+    """Run the cases one after the other in one World; stop at a runaway execution (its result is None: never terminal)."""
+    from harness.world import World, exec_arn, EPOCH
+    sc = {"name": "c07-batch", "machines": {}, "starts": [], "record_sites": False, "horizon": 1e9, "workers": {}}
     # g must fail on its first request of *each* execution: give every machine its own follow-up function
-    sc["workers"] = {}
-    for idx, (kind, r, c, o) in enumerate(cs):
+    for k, (kind, r, c, o) in enumerate(cs):
+        idx = base + k
         d = machine(kind, r, c, "f%d" % idx)
         d = json.loads(json.dumps(d).replace(FA + 'g"', FA + 'g%d"' % idx))
         sc["machines"]["m%d" % idx] = {"definition": d}
@@ -119,7 +130,19 @@ def _batch(args):
         sc["workers"]["g%d" % idx] = {"*": [["err", "E1", "gfail"], ["ok", "g-ok"]]}
         sc["starts"].append({"machine": "m%d" % idx, "name": "e", "input": INPUT, "after_quiet": True})
     w = World(sc)
-    w.run(max_steps=2000000)
+    since = 0
+    runaway = False
+    while True:
+        en = w.enabled()
+        w.enabled_cache = en
+        if not en:
+            break
+        since = 0 if en[0][0] == "api" else since + 1
+        if since > RUNAWAY_STEPS:
+            runaway = True
+            break
+        w.step(en[0])
+    ndone = len(cs) if not runaway else w.api_pos
     res = []
     term = {}
     starts = {}
@@ -129,18 +152,21 @@ def _batch(args):
             starts[det["executionArn"]] = n["time"]
         else:
             term.setdefault(det["executionArn"], []).append([det["status"], json.loads(det["output"]) if det.get("output") is not None else None, det.get("error"), n["time"]])
-    for idx in range(len(cs)):
+    for k in range(ndone):
+        idx = base + k
         arn = exec_arn("m%d" % idx, "e")
         t0 = starts.get(arn, 0)
-        ft = [round(t - t0, 6) for (_, _, _, t) in w.workers["f%d" % idx].requests]
-        gt = [round(t - t0, 6) for (_, _, _, t) in w.workers["g%d" % idx].requests]
+        ft = [round(t - t0, 6) for (_, _, _, t) in w.workers["f%d" % idx].requests][:50]
+        gt = [round(t - t0, 6) for (_, _, _, t) in w.workers["g%d" % idx].requests][:50]
         tt = term.get(arn)
         if tt:
             for x in tt:
                 x[3] = round(x[3] - t0, 6)
+        if runaway and k == ndone - 1:
+            tt = None
         res.append((tt, ft, gt))
     w.close()
-    return res
+    return res, max(ndone, 1)
 
 class SharedCountInterp(RA.Interp):
     """Defect model: one RetryCount per state, shared by all of its retriers (instead of one counter per retrier)."""
